@@ -140,6 +140,28 @@ template<typename T> static std::string do_deny(const std::string& off, i128 num
   free(r);
   return s;
 }
+// copy path with free_source_on_copy: the application's copy holds the source bytes as they were at the call, whatever the
+// sandbox's `free` writes into the block it gets back
+template<typename T> static std::string do_denyfs(const std::string& off, i128 num)
+{
+  auto p = tptr<T>(off);
+  uintptr_t a = addr_of(off);
+  size_t bytes = (size_t)(uint64_t)num * sizeof(T);
+  bool fill = a != 0 && (uint64_t)num <= BLK && off.rfind("in0:", 0) == 0 && (a - base0()) + bytes <= BLK;
+  if (fill) for (size_t i = 0; i < bytes; i++) reinterpret_cast<uint8_t*>(a)[i] = (uint8_t)((i * 7 + 3) % 251);
+  bool copied = false;
+  auto before = g_sb0.get_sandbox_impl()->n_free;
+  vsbx::g_free_poison = fill ? bytes : 1;
+  struct Reset { ~Reset() { vsbx::g_free_poison = 0; } } reset;
+  T* r = rlbox::copy_memory_or_deny_access(g_sb0, p, (size_t)(uint64_t)num, true, copied);
+  if (!r) return "ok nullret";
+  bool same = fill;
+  if (fill) for (size_t i = 0; i < bytes; i++) if (reinterpret_cast<uint8_t*>(r)[i] != (uint8_t)((i * 7 + 3) % 251)) { same = false; break; }
+  std::string s = std::string("ok copied=") + (copied ? "1" : "0") + " app=" + (g_sb0.is_pointer_in_app_memory(r) ? "1" : "0") +
+                  " bytes=" + (same ? "same" : "diff") + " freed=" + std::to_string(g_sb0.get_sandbox_impl()->n_free - before);
+  free(r);
+  return s;
+}
 template<typename T> static std::string do_grant(const std::string& src, i128 num)
 {
   bool copied = false;
@@ -225,6 +247,12 @@ int main()
       if (op == "safeptr" && t.size() == 4) {
         if (t[1] == "st12") return do_safeptr<vst12>(t[2], parse_dec(t[3]));
         return DISPATCH_EL(do_safeptr, t[1], t[2], parse_dec(t[3]));
+      }
+      if (op == "denyfs" && t.size() == 4) {
+        if (t[1] == "char") return do_denyfs<char>(t[2], parse_dec(t[3]));
+        if (t[1] == "short") return do_denyfs<short>(t[2], parse_dec(t[3]));
+        if (t[1] == "double") return do_denyfs<double>(t[2], parse_dec(t[3]));
+        return "badop";
       }
       if (op == "deny" && t.size() == 4) {
         if (t[1] == "char") return do_deny<char>(t[2], parse_dec(t[3]));
